@@ -81,4 +81,54 @@ theorem iriAuthority_octets (b : Text) (hb : ∀ c ∈ b, c < 256) (h : accepts 
 theorem iriPath_octets (b : Text) (hb : ∀ c ∈ b, c < 256) (h : accepts .iriPath b = true) :
     Matches iriGB.path b := iriGB_path ▸ iri_kind_octets .iriPath rfl b hb h
 
+/-! ## the converse: what matches the octet grammar is what the constructors accept -/
+
+theorem accepts_of_spec (k : Kind) (b : Text) (hb : ∀ c ∈ b, c < 256)
+    (h : ∃ w, symbols k b = some w ∧ Matches k.spec w) : accepts k b = true := by
+  obtain ⟨t, ht⟩ := (C01.construct_ok_iff k b hb).mpr h
+  unfold construct at ht
+  cases ha : accepts k b with
+  | true => rfl
+  | false => simp [ha] at ht
+
+/-- **an octet string matching the URI grammar is accepted by `UriRef::new`** -/
+theorem uriRef_of_octets (b : Text) (h : Matches uriG.reference b) : accepts .uriRef b = true := by
+  have hb : ∀ c ∈ b, c < 256 := fun c hc => by
+    have := matches_le_maxSym h c hc
+    have hm : maxSym uriG.reference < 256 := by decide
+    omega
+  exact accepts_of_spec .uriRef b hb ⟨b, by simp [symbols, Kind.isChar], h⟩
+
+theorem uri_of_octets (b : Text) (h : Matches uriG.full b) : accepts .uri b = true := by
+  have hb : ∀ c ∈ b, c < 256 := fun c hc => by
+    have := matches_le_maxSym h c hc
+    have hm : maxSym uriG.full < 256 := by decide
+    omega
+  exact accepts_of_spec .uri b hb ⟨b, by simp [symbols, Kind.isChar], h⟩
+
+/-- **an octet string matching the octet-level IRI grammar is accepted by `IriRef::new`**: it is
+well-formed UTF-8 and its scalar values form an RFC 3987 `IRI-reference` -/
+theorem iriRef_of_octets (b : Text) (h : Matches iriGB.reference b) : accepts .iriRef b = true := by
+  obtain ⟨w, hd, hm⟩ := (iri_octets_exact b).mp h
+  have hb : ∀ c ∈ b, c < 256 := by
+    rw [← utf8Encode_decode b w hd]
+    exact utf8Encode_bytes w (fun c hc => by
+      have := utf8Decode_scalars b w hd c hc; unfold IsScalar at this; omega)
+  exact accepts_of_spec .iriRef b hb ⟨w, by simp [symbols, Kind.isChar, hd], hm⟩
+
+theorem iri_of_octets (b : Text) (h : Matches iriGB.full b) : accepts .iri b = true := by
+  obtain ⟨w, hd, hm⟩ := (iri_octets_exact_full b).mp h
+  have hb : ∀ c ∈ b, c < 256 := by
+    rw [← utf8Encode_decode b w hd]
+    exact utf8Encode_bytes w (fun c hc => by
+      have := utf8Decode_scalars b w hd c hc; unfold IsScalar at this; omega)
+  exact accepts_of_spec .iri b hb ⟨w, by simp [symbols, Kind.isChar, hd], hm⟩
+
+/-- the two views agree: accepted by the generated automaton iff matching the octet grammar -/
+theorem uriRef_iff (b : Text) (hb : ∀ c ∈ b, c < 256) : accepts .uriRef b = true ↔ Matches uriG.reference b :=
+  ⟨uriRef_octets b hb, uriRef_of_octets b⟩
+
+theorem iriRef_iff (b : Text) (hb : ∀ c ∈ b, c < 256) : accepts .iriRef b = true ↔ Matches iriGB.reference b :=
+  ⟨iriRef_octets b hb, iriRef_of_octets b⟩
+
 end IrefVerif.Props.Valid
